@@ -194,7 +194,6 @@ def run(ctx):
             for b, t in seeds:
                 refs = [rb for rb, rt in f.calls() if last_seg(fx.callee_decl(rt)) == "reference_location"]
                 peeks = [pb for pb, pt in f.calls() if last_seg(fx.callee_decl(pt)) == "peek"]
-                pend = any(render(f.sym_place(s_["p"])) and False for _b, _i, s_ in f.stmts())  # placeholder
                 buffered = any(last_seg(fx.callee(ft)) == "with_reference" and f.dominates(fb, b) for fb, ft in f.calls())
                 helpers = []
                 for hb, ht in f.calls():
